@@ -131,7 +131,66 @@ print("RESULTS " + json.dumps(results))
         core.cleanup(folder)
 
 
+def lengths_in_parts(report):
+    """
+    'A field's value hook is called only for cells that ... satisfy the declared length' -- for lengths declared in several
+    parts with gaps between them and open ends: the hook of a user-defined field format runs iff the cell is not empty and its
+    number of characters lies in one of the parts; in a row, the hook of the next column runs iff this cell was accepted.
+    """
+    import io
+    core.import_repo()
+    import cutplace
+    from cutplace import data, errors, fields
+
+    calls = []
+
+    class CountingFieldFormat(fields.AbstractFieldFormat):
+        def validated_value(self, value):
+            calls.append((self.field_name, value))
+            return value
+
+    declarations = {"1...2, 5...6": [(1, 2), (5, 6)], "...1, 3...": [(0, 1), (3, 99)], "2, 4, 6": [(2, 2), (4, 4), (6, 6)], "...2, 7...8": [(0, 2), (7, 8)],
+                    "1...1, 3...4, 8...": [(1, 1), (3, 4), (8, 99)], "3...5": [(3, 5)], "4...": [(4, 99)]}
+    for fmt in ("delimited", "excel", "ods"):
+        data_format = data.DataFormat(fmt)
+        data_format.validate()
+        for declaration, parts in sorted(declarations.items()):
+            field = CountingFieldFormat("f", True, declaration, "", data_format)
+            for size in range(0, 11):
+                cell = "x" * size
+                del calls[:]
+                report.replayed += 1
+                try:
+                    field.validated(cell)
+                    verdict = "accepted"
+                except errors.FieldValueError:
+                    verdict = "rejected"
+                inside = any(lower <= size <= upper for lower, upper in parts)
+                want_calls = [("f", cell)] if (size > 0 and inside) else []
+                want = "accepted" if (size == 0 or inside) else "rejected"
+                if calls != want_calls or verdict != want:
+                    report.violation("c20", {"length": declaration, "cell": cell, "format": fmt}, [want, want_calls], [verdict, list(calls)],
+                                     "user-defined field format (format %s, length %r), cell of %d characters: is %s with the value hook called %d time(s) "
+                                     "but must be %s with %d call(s)" % (fmt, declaration, size, verdict, len(calls), want, len(want_calls)))
+                    return
+    # ... and in a row: the second column's hook runs iff the first cell was accepted
+    cid = cutplace.Cid()
+    cid.read("cid", [["D", "Format", "delimited"], ["F", "a", "", "", "1...2, 5...6", "Counting"], ["F", "b", "", "", "", "Counting"]])
+    for size in range(1, 8):
+        del calls[:]
+        report.replayed += 1
+        list(cutplace.rows(cid, io.StringIO("%s,y\r\n" % ("x" * size), newline=""), on_error="yield"))
+        want_calls = [("a", "x" * size), ("b", "y")] if size in (1, 2, 5, 6) else []
+        if calls != want_calls:
+            report.violation("c20", {"length": "1...2, 5...6", "row": ["x" * size, "y"]}, want_calls, list(calls),
+                             "row %r under a first field of length '1...2, 5...6': the value hooks were called for %r but must be called for %r" % (
+                                 ["x" * size, "y"], list(calls), want_calls))
+            return
+    report.notes["lengths_in_parts"] = "value hook calls under 7 length declarations with gaps x cells of 0..10 characters x 3 formats"
+
+
 def extra(report, tier):
+    lengths_in_parts(report)
     vectors = extra.vectors
     sample, results, plugin_problems = plugin_run(vectors, 150 if tier == "quick" else 1500)
     for problem in plugin_problems:
